@@ -257,7 +257,7 @@ func runShard(ctx context.Context, bin string, prop, tier string, seed int64, sh
 		cmd := exec.CommandContext(ctx, bin, args...)
 		cmd.Env = append(os.Environ(), extraEnv...)
 		if race {
-			cmd.Env = append(cmd.Env, "GORACE=halt_on_error=0 log_path="+filepath.Join(work, "race_"+tag))
+			cmd.Env = append(cmd.Env, "GORACE=halt_on_error=0 exitcode=0 log_path="+filepath.Join(work, "race_"+tag))
 		}
 		ef, _ := os.Create(stderrp)
 		cmd.Stdout = ef
